@@ -490,7 +490,14 @@ class ScalarChecker:
         if case.get("redefine"):
             fvr = FractionValue(case["number"], Fraction(case["num"], case["den"]))
             pairs = [(FractionScalar(fvr, u, "bv c18 band"), Scalar(float(fvr), u, "bv c18 band")) for u in ("m", "cm", "ft")]
+            # (equality, like validity, is a matter of amounts: a FractionScalar of another, untouched category made
+            # before the re-registration equals one made after it, exactly like the Scalars)
+            eq_before = (FractionScalar(fvr, "in", "length"), Scalar(float(fvr), "in", "length"))
             self.db.AddCategory("bv c18 band", "length", override=True, min_value=0.0, max_value=1000.0, default_unit="m", default_value=0.5)
+            eq_after = (FractionScalar(FractionValue(case["number"], Fraction(case["num"], case["den"])), "in", "length"), Scalar(float(fvr), "in", "length"))
+            ctx.ev()
+            if (eq_before[0] == eq_after[0]) != (eq_before[1] == eq_after[1]) or (eq_before[0] != eq_after[0]) != (eq_before[1] != eq_after[1]):
+                ctx.fail("fraction_scalar_equality_differs_from_scalar:across_a_category_redefinition", dict(case), "%r made before and %r made after another category was re-registered: == is %r, for the Scalars %r" % (eq_before[0], eq_after[0], eq_before[0] == eq_after[0], eq_before[1] == eq_after[1]))
             try:
                 for fo, so in pairs:
                     ctx.ev()
